@@ -13,7 +13,7 @@ def enginex(prop, qs=16, ts=16, qb=300, tb=1800):
     }
 
 
-def schedx(prop, qb=150, tb=1500):
+def schedx(prop, qb=300, tb=1800):
     return {
         "name": "schedx", "dir": "schedx", "variant": "verif",
         "cmd": ["{build}/harness/schedx/schedx", "--prop", prop, "--tier", "{tier}", "--shard", "{shard}", "--nshards", "{nshards}",
